@@ -557,7 +557,23 @@ def observe_net(case):
             bi += 1
             ob["q"].append({"single": single, "batch": b})
         elif q["k"] == "shape":
-            ob["q"].append({"r": guarded(net.find_lanelet_by_shape, G.make_shape(q["s"]))})
+            entry = {"r": guarded(net.find_lanelet_by_shape, G.make_shape(q["s"]))}
+            if not any("near" in x for x in ob["q"]):
+                # the same shape a hair's breadth away (below every rounding a key could apply), asked of this network -
+                # which has just answered for the original - and of a copy that has answered nothing yet
+                try:
+                    fresh = copy.deepcopy(net)
+                    diffs = []
+                    for dx, dy in ((4e-11, 0.0), (-4e-11, 0.0), (0.0, 4e-11), (0.0, -4e-11)):
+                        s2 = G.make_shape(q["s"]).translate_rotate(np.array([dx, dy]), 0.0)
+                        used = guarded(lambda: sorted(net.find_lanelet_by_shape(s2)))
+                        new = guarded(lambda: sorted(fresh.find_lanelet_by_shape(s2)))
+                        if used != new:
+                            diffs.append([[dx, dy], used, new])
+                    entry["near"] = diffs
+                except Exception:  # noqa - copying is judged by its own route
+                    entry["near"] = []
+            ob["q"].append(entry)
         elif q["k"] == "contains":
             ob["q"].append({"r": {la.lanelet_id: guarded(lambda: bool(la.contains_points(np.array([q["p"], q["p"]], dtype=float))[0]))
                                   for la in net.lanelets}})
@@ -569,7 +585,14 @@ def observe_net(case):
             mp = guarded(lambda: {k: [o.obstacle_id for o in v]
                                   for k, v in net.map_obstacles_to_lanelets(obstacles).items()})
             fl = guarded(lambda: [o.obstacle_id for o in net.filter_obstacles_in_network(obstacles)])
-            ob["q"].append({"placed": placed, "per": per, "map": mp, "filter": fl})
+            twin = None
+            if len(q["obs"]) >= 2:
+                # a list may hold two different obstacles with one id (candidate poses of a vehicle, obstacles of two
+                # scenarios): obstacle B again, carrying A's id, is on the network exactly when B is
+                bc = make_obstacle(dict(q["obs"][1], id=q["obs"][0]["id"]), net)
+                twin = guarded(lambda: (lambda res: [any(x is obstacles[1] for x in res), any(x is bc for x in res)])(
+                    net.filter_obstacles_in_network(obstacles + [bc])))
+            ob["q"].append({"placed": placed, "per": per, "map": mp, "filter": fl, "twin": twin})
     # the cut-out route: which lanelets should have survived
     return ob
 
@@ -688,6 +711,11 @@ def judge_net(case, ob):
                                 f"({q['where']}, route {[s[0] for s in case['route']]})"))
         elif q["k"] == "shape":
             s = q["s"]
+            if o.get("near"):
+                d0 = o["near"][0]
+                out.append((f"find_lanelet_by_shape:{s['k']}:answer depends on what the network answered before",
+                            f"find_lanelet_by_shape of {s} moved by {d0[0]}: {d0[1]} from the network that had just answered "
+                            f"for the unmoved shape, {d0[2]} from a copy that had answered nothing"))
             if s["k"] == "group":
                 o["group"] = True  # the API rejects shape groups by assertion: recorded, not judged (DESIGN 2.7)
                 ob["skip"].add(qi)
@@ -794,6 +822,11 @@ def judge_net(case, ob):
             elif sorted(o["filter"][1]) != expf:
                 out.append((circ_sig(f"filter_obstacles_in_network:{kinds}", got_all=o["filter"][1]),
                             f"filter_obstacles_in_network = {sorted(o['filter'][1])}, brute force = {expf}; {placed}"))
+            tw = o.get("twin")
+            if tw is not None and tw[0] == "ok" and tw[1][0] != tw[1][1]:
+                out.append(("filter_obstacles_in_network:an obstacle with the id of another one is treated differently",
+                            f"filter_obstacles_in_network keeps obstacle {q['obs'][1]['id']}: {tw[1][0]}, the same obstacle "
+                            f"carrying the id of obstacle {q['obs'][0]['id']} (also in the list): {tw[1][1]}; {placed}"))
     return out
 
 
